@@ -148,6 +148,21 @@ NOT_APPLICABLE = []
 # checks whose theorem files are not in the tree yet (enabled as they land)
 DISABLED = set(p for p in CHECKS if p not in ('C02','C05','C12','C13','C19','C20') and not os.path.exists(os.path.join(V, 'coq/theories/Properties/%s.v' % p)))
 
+# sentences appended to the level text: theorems and monitor clauses added after the seeded-change rounds
+EXTRA = {
+ "C03": " C03_initiation_monitor: every response that redirects to the authorization endpoint stores, in a cookie that is set (not deleted), exactly the state / nonce / verifier its URL shows (boolean monitor applied to every observed response).",
+ "C04": " C04_completion_step: a response that completes a login (callback 302 to a local path after a successful exchange) or a forwarded refresh stores, in that very response, the authenticated main cookie and the ID token obtained.",
+ "C05": " A third supporting run overlaps two browsers' refreshing requests with one slow JWKS fetch after the key set expired and was dropped by the cleanup tick.",
+ "C07": " C07_read_back_step: the ID token forwarded downstream (no provider call intervening) and the refresh token presented to the provider are exactly what the request's cookies hold; histories include tokens of 32-70 KB.",
+ "C09": " C09_load_ignores_undecodable (session content never depends on undecodable cookies) and C09_undecodable_ignored (new state equal, response equal up to deletion headers for chunk cookies) hold unconditionally; the opacity measurement includes a main-cookie size sweep up to and beyond the codec's length cap.",
+ "C12": " A quarter of the histories run through the TokenCache wrapper (prefixed keys, claims maps) around the cache, judged by the same model.",
+ "C13": " The stress run includes a retention phase: writers re-store their own key live while sweepers call Cleanup; a live entry below capacity must always be found.",
+ "C17": " C17_login_heals / C17_save_heals: a successful callback turns ANY jar whose chunk cookies form a prefix (junk, other keys, renamed cookies under every name) into a contiguous jar holding exactly the stored session; C17_prefix_invariant / C17_prefix_tamper: that premise is preserved by every response and by tampering with cookie values; C17_redirect_starts_login: every login redirect stores the state it shows.",
+ "C19": " The limiter construction is measured for every configured limit 10..130 and a spread up to 10000 (values that do not divide a second, values above 1000); arrival patterns are also run for such limits.",
+ "C20": " C20_stays_serving: once healed, no request is turned away while the provider keeps its document, whatever shifts / refresh ticks / cleanups happen; one case runs with the middleware's DEFAULT HTTP client (measured timeout) against a provider that sends headers and stalls the body.",
+}
+
+
 def main():
     m = {
       "version": 1,
@@ -178,7 +193,7 @@ def main():
           "evidence_file": "/verif/evidence/%s.json" % pid,
           "replay_cmd_template": "bin/check %s quick --replay {path}" % pid,
           "engine": "coq-model+correspondence",
-          "level_claimed": {"category": c.get("category", "proof"), "text": c["text"], "design_ref": c["design_ref"]},
+          "level_claimed": {"category": c.get("category", "proof"), "text": c["text"] + EXTRA.get(pid, ""), "design_ref": c["design_ref"]},
           "level_note": c["note"],
           "technique": c["technique"],
         })
